@@ -664,7 +664,11 @@ func (x *Exec) trCall(env *Env, e ECall) Val {
 		v := x.tr(env, e.Args[0])
 		st := env.st
 		var texts []string
-		for _, f := range st.pc {
+		pcs := st.pc
+		if st.ensStart > 0 && st.ensStart <= len(pcs) {
+			pcs = pcs[:st.ensStart] // facts assumed from already-proved postconditions do not count
+		}
+		for _, f := range pcs {
 			texts = append(texts, f.S)
 		}
 		hs := st.heaps
